@@ -19,6 +19,10 @@ import uuid
 from . import common as C
 from . import c20
 
+class HostUnavailable(Exception):
+    """The nightly toolchain (needed only for -Zunpretty=expanded) cannot build the derive here."""
+
+
 DUMMY_MANIFEST = """[package]
 name = "rd"
 version = "0.0.0"
@@ -51,7 +55,7 @@ def build_host():
         shutil.copy(os.path.join(C.REPO, "Cargo.lock"), lock)
         p = subprocess.run(["cargo", "+nightly", "build", "--offline", "--manifest-path", mp], env=env, stdout=subprocess.PIPE, stderr=subprocess.STDOUT, text=True)
     if p.returncode != 0:
-        raise C.HarnessError("building the derive with the nightly toolchain failed:\n" + "\n".join(p.stdout.splitlines()[-25:]))
+        raise HostUnavailable("building the derive with the nightly toolchain failed: " + " | ".join(p.stdout.splitlines()[-6:]))
     deps = os.path.join(env["CARGO_TARGET_DIR"], "debug", "deps")
 
     def newest(pattern):
